@@ -99,12 +99,12 @@ def BOUNDED(tier, seed):
         y = 1
         base = _loss(y, _model(x))           # single explained observation: the mean prediction is M(x)
 
-        def run_many(strategy):
+        def run_many(strategy, n_inner=1):
             def run():
                 st = BatchStorage(store_targets=True)
                 for r in rows:
                     st.update(r, 0)
-                ex = BatchSage(_model, list(names), _loss, n_inner_samples=1, storage=st, imputer=MarginalImputer(_model, strategy, st))
+                ex = BatchSage(_model, list(names), _loss, n_inner_samples=n_inner, storage=st, imputer=MarginalImputer(_model, strategy, st))
                 return ex.explain_many([x], [y], verbose=False)
             return run
         # joint strategy: ONE uniform row for all imputed features: value(S) = - E_row L(y, M(x_S, row_notS)), w(empty) = - L(y, mean prediction)
@@ -123,6 +123,31 @@ def BOUNDED(tier, seed):
                               f'Shapley values { {k: float(v) for k, v in shw.items()} } (all orders and row choices enumerated through the real class)'})
         except Exception as ex:   # noqa
             fails.append({'key': 'sage_unbiased', 'summary': f'd={d}, joint strategy: enumeration of the draws failed: {ex!r}'})
+        # two inner samples (joint): the rows of one call are INDEPENDENT uniform draws (with replacement); the coalition value is
+        # the expected loss of the MEAN of the two predictions
+        if d == 2:
+            def v2(S):
+                tot = Fraction(0)
+                for r1 in rows:
+                    for r2 in rows:
+                        p1 = _model({k: (x[k] if k in S else r1[k]) for k in names})['output']
+                        p2 = _model({k: (x[k] if k in S else r2[k]) for k in names})['output']
+                        tot += _loss(y, {'output': (p1 + p2) / 2})
+                return -tot / (len(rows) ** 2)
+
+            def w2(S):
+                return v2(S) if S else -base
+            sh2 = _shapley(names, w2)
+            evals += 1
+            distinct.add(('sage_many_two_inner', d))
+            try:
+                exp2, _ = _expected(run_many('joint', 2), names)
+                if any(not close(exp2[k], sh2[k]) for k in names):
+                    fails.append({'key': 'sage_unbiased', 'summary': f'd={d}, two inner samples: expected SAGE contributions '
+                                  f'{ {k: float(v) for k, v in exp2.items()} } != Shapley values with independent background rows '
+                                  f'{ {k: float(v) for k, v in sh2.items()} }'})
+            except Exception as ex:   # noqa
+                fails.append({'key': 'sage_unbiased', 'summary': f'd={d}, two inner samples: enumeration of the draws failed: {ex!r}'})
         # product strategy: an INDEPENDENT uniform row per imputed feature
         def vp(S):
             out = [f for f in names if f not in S]
